@@ -52,6 +52,44 @@ int main(int argc, char** argv)
     for (int k = 1; k < 3; ++k)
         for (double e : {0.13, 0.15})
             prims.push_back({k, e, {1.4375, 0.125, 0.0}, {1, 0, 0}, fmt("k%d.eb%g.q2.a0", k, e)});
+    {
+        // Starved secondary stack WITH multiple scattering, two slots, and an e+ that stops
+        // while another track allocates in the same step: the annihilation at rest fails and is
+        // deferred, so the e+ starts its next step AT REST (step limit 0) in a slot whose last
+        // MSC step is still recorded.  Roots: (e+, gamma) in both orders.
+        for (auto a : {AlongStep::linear_msc, AlongStep::linear_msc_fluct})
+        {
+            if (!thorough && a != AlongStep::linear_msc)
+                continue;
+            LoopConfig c;
+            c.geometry = 1;
+            c.geo_variant = 1;
+            c.along = a;
+            c.slots = 2;
+            c.secondary_stack_factor = 2.5 / 2;  // capacity 2
+            c.xs_gamma = 0.7;
+            c.xs_electron = 1.0;
+            c.dedx = 2.0;
+            c.bookkeeping = false;
+            configs.push_back({c, fmt("g1.%s.s2.o0.x0.cap2.rest", along_name(a))});
+        }
+        for (int order = 0; order < 2; ++order)
+        {
+            PrimaryCase ep{2, 0.1, {0.2, 0.1, 0.05}, {0, 0, 1}, order ? "k0+k2.rest" : "k2+k0.rest"};
+            ep.kind2 = 0;
+            ep.energy2 = 100.0;
+            ep.pos2 = {0.3, -0.2, 0.1};
+            ep.dir2 = {1, 0, 0};
+            if (order)
+            {
+                std::swap(ep.kind, ep.kind2);
+                std::swap(ep.energy, ep.energy2);
+                std::swap(ep.pos, ep.pos2);
+                std::swap(ep.dir, ep.dir2);
+            }
+            prims.push_back(ep);
+        }
+    }
     if (rng_part)
     {
         // forced random words: the interaction outcomes stay at their defaults; a thinner
@@ -86,6 +124,8 @@ int main(int argc, char** argv)
         for (auto const& pc : prims)
         {
             if (needs_proton(pc) != cc.cfg.with_proton)
+                continue;
+            if ((pc.id.find(".rest") != std::string::npos) != (cc.id.find(".rest") != std::string::npos))
                 continue;
             uint64_t idx = outer++;
             if (!R.mine(idx))
